@@ -258,6 +258,10 @@ type fileEntry struct {
 	File      string    `json:"file"`
 	Functions []fnEntry `json:"functions"`
 	Error     string    `json:"error"`
+	Scan      []struct {
+		SignatureName   string `json:"signature_name"`
+		MatchedFunction string `json:"matched_function"`
+	} `json:"scan_results"`
 }
 
 type scanJSON struct {
@@ -905,6 +909,37 @@ func runTree(index int) {
 				res.Violate("strict/exit-zero-despite-errors", fmt.Sprintf("tree %d: `%s sfw check --strict` exited 0 although files had errors (unanalysable files present=%v, errors in non-strict JSON=%v)", t.Index, procs, badPresent, p1Err), s1.replay(t))
 			} else if s1.RC != 0 {
 				res.Count("strict_failed_with_errors", 1)
+			}
+		}
+	}
+	// `check --scan`: every function is also SCANNED there; a planted body must be reported in
+	// the scan results of some entry, whatever else in its package has the same fingerprint
+	if cs := runSfw(cwd, "check", "--no-sandbox", "--scan", "--db", jsonDB, target); !timedOut(cs) {
+		var entries []fileEntry
+		if json.Unmarshal(cs.Stdout, &entries) != nil {
+			res.Count("check_scan_without_json", 1)
+		} else {
+			dist("check-scan/whole/json")
+			for _, f := range t.Files {
+				if !f.good() {
+					continue
+				}
+				for _, pl := range f.Plants {
+					res.Eval(1)
+					hit := false
+					for _, e := range entries {
+						for _, a := range e.Scan {
+							if strings.Contains(a.MatchedFunction, pl.Host) && strings.HasPrefix(a.SignatureName, "T_") {
+								hit = true
+							}
+						}
+					}
+					if !hit {
+						m := cs.replay(t)
+						m["file"], m["line"], m["host"] = pl.Rel, pl.Line, pl.Host
+						res.Violate("check-scan/plant-not-alerted/"+pl.Kind, fmt.Sprintf("tree %d: %s:%d carries the exact body of the indexed signature (%s in %s) but `sfw check --scan` reports it in no entry's scan_results", t.Index, pl.Rel, pl.Line, pl.Kind, pl.Host), m)
+					}
+				}
 			}
 		}
 	}
